@@ -10,7 +10,7 @@ import fiddle as fdl
 from harness import common, l1
 from harness.common import Failure, Result, Stream, Param
 
-COQ_TARGETS = ["theories/C01Check.vo", "theories/Anchors.vo"]
+COQ_TARGETS = ["theories/C01Check.vo", "theories/AnchorsBuild.vo", "theories/AnchorsEdit.vo"]
 TRUSTED_BASE = [
     "inspect.signature (the model receives the signature the implementation computed)",
     "CPython call binding is modelled by PyCall.py_call and validated only by this stream",
